@@ -9,6 +9,14 @@ LEVEL_TEXT = ("seeded search over schedules, fault sequences and generated workl
               "recorded history. A clean batch is evidence, not proof: exploration is the honest level.")
 
 CHECKS = {
+ "C05": dict(
+   design="§C05",
+   technique="deterministic simulation: seeded statement-level interleaving of the real limiter stack (yield-instrumented overlay incl. the maxinflight dependency) + porcupine linearizability against a sequential max-in-flight model with epochs + drain check",
+   note="Trusts: statement-granularity interleaving with sequentially consistent atomics; the go/ast instrumentation; request threads reproduce the dispatcher calling pattern (GetOrDefault, TryAcquire, deferred Release on the same object). HTTP exit paths (upstream error, no ready endpoint, client abort, panic) are exercised by the gw world once built."),
+ "C14": dict(
+   design="§C14",
+   technique="deterministic simulation: seeded statement-level interleaving of concurrent Pop() calls (yield-instrumented overlay) with tape-owned map order (hook H4), window-balance oracle over quiescence-delimited stretches",
+   note="Trusts: consecutive picks under concurrency are delimited by quiescent points; all-endpoints policies get a k! allowance (one cursor per map ordering). Endpoint health is set directly (no probes) in this world."),
  "C08": dict(
    design="§C08",
    technique="deterministic simulation: seeded statement-level interleaving of the real SetState/Resize code (yield-instrumented overlay) + porcupine linearizability against a sequential counter model + quiescent invariants",
